@@ -1,12 +1,12 @@
 //! E-memo, implementation-only part (property C07): the MISS log of the counting context on a bare body.
-//! A get_cache miss is what starts an evaluation of a memoised parser; set_cache only records the
-//! evaluations whose result is stored (parse_method_call returns with `?` before set_cache when it fails).
+//! A get_cache miss is what starts an evaluation of a memoised parser; set_cache records the evaluations
+//! whose result is stored.  All three memoised parsers (parse_primary, parse_expr, parse_method_call) store
+//! every result, errors included, so every miss must be followed by a store and no key may be missed twice.
 //! Case line   B:<cps> | T:<cps>  (as for engine memo)
-//! Observation <n>|<sets>|<misses>|<hits>|<dup01>|<dup2>|<unstored01>|<fail2>
-//!   dup01       misses of caches 0/1 whose key was already missed before in this body (must be 0)
-//!   dup2        the same for cache 2 (parse_method_call): re-evaluations of FAILING method calls
-//!   unstored01  misses of caches 0/1 not followed by a set_cache (must be 0)
-//!   fail2       misses of cache 2 not followed by a set_cache (failing evaluations)
+//! Observation <n>|<sets>|<misses>|<hits>|<dup>|<unstored>|<m2>|<s2>
+//!   dup       misses whose (cache, len) key was already missed before in this body (must be 0)
+//!   unstored  misses not followed by a set_cache (must be 0)
+//!   m2, s2    misses / stores of cache 2 (parse_method_call)
 use crate::common::cps_to_string;
 use crate::eng_memo::{lex, CountingContext};
 use crate::parser::body_parser::parse_statement_v2;
@@ -24,14 +24,12 @@ fn run_case_inner(line: &str) -> String {
     let sets = ctx.sets.clone();
     let misses = ctx.misses.borrow().clone();
     let mut seen = HashSet::new();
-    let (mut dup01, mut dup2) = (0usize, 0usize);
+    let mut dup = 0usize;
     for m in &misses {
-        if !seen.insert(*m) { if m.0 == 2 { dup2 += 1 } else { dup01 += 1 } }
+        if !seen.insert(*m) { dup += 1 }
     }
-    let m01 = misses.iter().filter(|m| m.0 != 2).count();
-    let s01 = sets.iter().filter(|m| m.0 != 2).count();
-    let m2 = misses.len() - m01;
-    let s2 = sets.len() - s01;
-    format!("{}|{}|{}|{}|{}|{}|{}|{}", toks.len(), sets.len(), misses.len(), ctx.hits.get(), dup01, dup2,
-            m01 as i64 - s01 as i64, m2 as i64 - s2 as i64)
+    let m2 = misses.iter().filter(|m| m.0 == 2).count();
+    let s2 = sets.iter().filter(|m| m.0 == 2).count();
+    format!("{}|{}|{}|{}|{}|{}|{}|{}", toks.len(), sets.len(), misses.len(), ctx.hits.get(), dup,
+            misses.len() as i64 - sets.len() as i64, m2, s2)
 }
